@@ -180,6 +180,8 @@ class Impl6(H5.Impl):
             return td._key_list()
         if meth == 6:
             return list(td._nested_keys(bool(args[0]), bool(args[1]), args[2]))
+        if meth == 7:
+            return td._get_str(H5.KID_KEYS[args[0]], None)
         raise ValueError(meth)
 
     def canon(self, td, meth, out, ids=True):
@@ -209,6 +211,14 @@ class Impl6(H5.Impl):
             return ["value", sorted([[k], ["l", 0]] for k in out)]
         if meth == 6:
             return ["value", sorted([path(k), ["l", 0]] for k in out)]
+        if meth == 7:
+            if out is None:
+                return ["value", []]
+            key = None
+            rows = []
+            for m_idx, member in enumerate(out.tensordicts):
+                rows.append([[str(m_idx), "?"], ent(member)])
+            return ["value7", sorted(r[1] for r in rows)]
         raise ValueError(meth)
 
 
@@ -223,6 +233,8 @@ def canon_model_read(meth, a):
         rows = [[[str(x) for x in p[0]], [p[1][0], p[1][1]]] for p in res[1]]
         if meth == 1:
             return kind, ["values", sorted(r[1] for r in rows)]
+        if meth == 7:
+            return kind, (["value7", sorted(r[1] for r in rows)] if rows else ["value", []])
         return kind, ["value", sorted(rows)]
     return kind, ["object", res[1], sorted([str(e[0]), e[1]] for e in res[2])]
 
@@ -262,15 +274,21 @@ def _gen_event6(rng, impl: Impl6, obj_counter, leaf_fns):
     r = rng.random()
     if live and r < 0.12 and impl.recent:
         # repeat a recent read (that is what produces hits)
-        ev = rng.choice(impl.recent[-6:])
-        if impl.nodes[ev[1]] is not None and (ev[2] == 5) == impl.is_lazy(impl.nodes[ev[1]]) and \
-                (ev[2] == 5 or not any(impl.is_lazy(x) for x in impl.reach(ev[1]))):
+        ev = rng.choice([e for e in impl.recent[-6:] if e[2] != 7] or impl.recent[-6:])
+        if ev[2] != 7 and impl.nodes[ev[1]] is not None and (ev[2] in (5, 7)) == impl.is_lazy(impl.nodes[ev[1]]) and \
+                (ev[2] in (5, 7) or not any(impl.is_lazy(x) for x in impl.reach(ev[1]))):
             return ev
     if live and r < 0.40:
         locked = [i for i in live if impl.nodes[i].is_locked]
         i = rng.choice(locked) if locked and rng.random() < 0.7 else rng.choice(live)
         n = impl.nodes[i]
         if impl.is_lazy(n):
+            if rng.random() < 0.5:
+                ki = rng.randint(0, 2)
+                ents = [m._tensordict.get(H5.KID_KEYS[ki]) if not impl.is_lazy(m) else "lazy" for m in n.tensordicts]
+                # stacking the members' entries needs entries of one kind: plain tensordicts (or a member without the key)
+                if all(e is None or (not isinstance(e, str) and not impl.is_lazy(e)) for e in ents):
+                    return ("read", i, 7, [ki])      # entry access through the stack
             return ("read", i, 5, [])
         if any(impl.is_lazy(x) for x in impl.reach(i)):
             # the keys of a nested lazy stack are the keys shared by its members, not its members: outside the content model
